@@ -1,8 +1,317 @@
+/-
+  C20 — compact matrix containers and the Fourier helper are numerically faithful.
+  Property theorems only (helper lemmas live in SmrtVerif/Proofs).  `R` is any commutative ring
+  (instantiated at ℝ for the code's doubles; rounding is not modelled).
+-/
 import SmrtVerif.Model.Container
+import SmrtVerif.Proofs.Sum
+import SmrtVerif.Proofs.Todiag
+import Mathlib.Tactic.Ring
+import Mathlib.Tactic.Linarith
+
+set_option linter.unusedSectionVars false
+
 namespace Smrt.Props.C20
 open Smrt
 
-theorem diag_getItem_eq_toMat {α : Type} [OfNat α 0] (d : Diag α) (i j : Nat) :
-    d.getItem i j = d.toMat.f i j := rfl
+variable {R : Type} [CommRing R]
+
+/-! ### `smrt_diag` operators are the dense operations on `toMat` -/
+
+/-- `D @ M` (rows scaled) is the dense product `toMat D · M` -/
+theorem diag_matmul_ndarray (d : Diag R) (M : Mat R) (_hM : M.r = d.n) (i j : Nat) (hi : i < d.n) :
+    (d.matmulMat M).f i j = (d.toMat.mul M).f i j := by
+  simp only [Diag.matmulMat, Mat.mul, Diag.toMat]
+  have : (fun k => (if i = k then d.d i else 0) * M.f k j) = (fun k => if i = k then d.d i * M.f k j else 0) := by
+    funext k; split <;> simp
+  rw [this, sumN_single' d.n i hi]; ring
+
+/-- `M @ D` (columns scaled) is the dense product `M · toMat D` -/
+theorem ndarray_matmul_diag (d : Diag R) (M : Mat R) (hM : M.c = d.n) (i j : Nat) (hj : j < d.n) :
+    (Diag.rmatmul M d).f i j = (M.mul d.toMat).f i j := by
+  simp only [Diag.rmatmul, Mat.mul, Diag.toMat, hM]
+  have : (fun k => M.f i k * (if k = j then d.d k else 0)) = (fun k => if k = j then M.f i k * d.d k else 0) := by
+    funext k; split <;> simp
+  rw [this, sumN_single d.n j hj]
+
+/-- `D₁ @ D₂` stays diagonal and equals the dense product -/
+theorem diag_matmul_diag (a b : Diag R) (_hn : a.n = b.n) (i j : Nat) (hi : i < a.n) :
+    (a.matmulDiag b).toMat.f i j = (a.toMat.mul b.toMat).f i j := by
+  simp only [Diag.matmulDiag, Mat.mul, Diag.toMat]
+  have : (fun k => (if i = k then a.d i else 0) * (if k = j then b.d k else 0))
+       = (fun k => if i = k then (if k = j then a.d i * b.d k else 0) else 0) := by
+    funext k; split <;> split <;> simp
+  rw [this, sumN_single' a.n i hi]
+  split <;> simp [mul_comm]
+
+theorem diag_add_diag (a b : Diag R) (i j : Nat) :
+    (a.addDiag b).toMat.f i j = (a.toMat.add b.toMat).f i j := by
+  simp only [Diag.addDiag, Mat.add, Diag.toMat]; split <;> simp [add_comm]
+
+/-- `self - other` is the dense difference (the code once returned `other - self`) -/
+theorem diag_sub_diag (a b : Diag R) (i j : Nat) :
+    (a.subDiag b).toMat.f i j = (a.toMat.sub b.toMat).f i j := by
+  simp only [Diag.subDiag, Mat.sub, Diag.toMat]; split <;> simp
+
+theorem diag_add_ndarray (a : Diag R) (M : Mat R) (i j : Nat) :
+    (a.addMat M).f i j = (a.toMat.add M).f i j := by
+  simp only [Diag.addMat, Mat.add, Diag.toMat]; split <;> simp [add_comm]
+
+theorem diag_mul_scalar (a : Diag R) (s : R) (i j : Nat) :
+    (a.mulScalar s).toMat.f i j = (Mat.smul s a.toMat).f i j ∧ (Diag.rmulScalar s a).toMat.f i j = (Mat.smul s a.toMat).f i j := by
+  simp only [Diag.mulScalar, Diag.rmulScalar, Mat.smul, Diag.toMat]; split <;> simp [mul_comm]
+
+/-! ### `compress`: polarisation is the fast index, direction the slow one -/
+
+/-- dense4 ↦ entry `(i·npol + p, j·npol + q)` -/
+theorem compress_dense4_layout (npol ns ni : Nat) (v : Nat → Nat → Nat → Nat → R) (mode : Option Nat) (ar : Bool)
+    (p q i j : Nat) (hp : p < SM.redPol npol mode ar) (hq : q < SM.redPol npol mode ar) :
+    ∃ m : Mat R, (SM.dense4 npol ns ni v).compress mode ar = .ok (.dense m) ∧
+      m.r = ns * SM.redPol npol mode ar ∧ m.c = ni * SM.redPol npol mode ar ∧
+      m.f (i * SM.redPol npol mode ar + p) (j * SM.redPol npol mode ar + q) = v p q i j := by
+  refine ⟨_, rfl, rfl, rfl, ?_⟩
+  have h0 : 0 < SM.redPol npol mode ar := Nat.lt_of_le_of_lt (Nat.zero_le _) hp
+  simp only [Nat.mul_add_mod_self_right, Nat.mod_eq_of_lt hp, Nat.mod_eq_of_lt hq]
+  rw [Nat.mul_comm i, Nat.mul_comm j, Nat.mul_add_div h0, Nat.mul_add_div h0, Nat.div_eq_of_lt hp, Nat.div_eq_of_lt hq]
+  simp
+
+/-- diagonal4 ↦ diagonal entry `i·npol + p` -/
+theorem compress_diag4_layout (npol n : Nat) (v : Nat → Nat → R) (mode : Option Nat) (ar : Bool)
+    (p i : Nat) (hp : p < SM.redPol npol mode ar) :
+    ∃ d : Diag R, (SM.diag4 npol n v).compress mode ar = .ok (.diag d) ∧
+      d.n = n * SM.redPol npol mode ar ∧ d.d (i * SM.redPol npol mode ar + p) = v p i := by
+  refine ⟨_, rfl, rfl, ?_⟩
+  have h0 : 0 < SM.redPol npol mode ar := Nat.lt_of_le_of_lt (Nat.zero_le _) hp
+  simp only [Nat.mul_add_mod_self_right, Nat.mod_eq_of_lt hp]
+  rw [Nat.mul_comm i, Nat.mul_add_div h0, Nat.div_eq_of_lt hp]; simp
+
+/-- mode selection then compression = compression with that mode (dense5, diagonal5) -/
+theorem compress_sel (s : SM R) (m : Nat) (ar : Bool) (s' : SM R) (h : s.sel m ar = .ok s') :
+    ∃ c, s.compress (some m) ar = .ok c ∧ ∃ c', s'.compress none false = .ok c' ∧
+      (match c, c' with
+       | .dense a, .dense b => a.r = b.r ∧ a.c = b.c ∧ ∀ i j, a.f i j = b.f i j
+       | .diag a, .diag b => a.n = b.n ∧ ∀ i, a.d i = b.d i
+       | _, _ => False) := by
+  cases s with
+  | zero => simp [SM.sel] at h
+  | diag4 => simp [SM.sel] at h
+  | dense4 => simp [SM.sel] at h
+  | diag5 npol nm n v =>
+    simp only [SM.sel, Except.ok.injEq] at h; subst h
+    refine ⟨_, rfl, _, rfl, ?_⟩
+    simp [SM.redPol]
+  | dense5 npol nm ns ni v =>
+    simp only [SM.sel, Except.ok.injEq] at h; subst h
+    refine ⟨_, rfl, _, rfl, ?_⟩
+    simp [SM.redPol]
+
+/-- compressing the dense form of a diagonal container gives the dense form of its compressed diagonal:
+    `compress ∘ to_dense = toMat ∘ compress` (this is the law the old `to_dense` violated) -/
+theorem compress_toDense_diag4 (npol n : Nat) (v : Nat → Nat → R) (_hnp : 0 < npol) (r c : Nat)
+    (_hr : r < n * npol) (_hc : c < n * npol) :
+    ∃ d : Diag R, ∃ m : Mat R, (SM.diag4 npol n v).compress none false = .ok (.diag d) ∧
+      ((SM.diag4 npol n v).toDense >>= fun s => s.compress none false) = .ok (.dense m) ∧
+      m.r = d.n ∧ m.c = d.n ∧ m.f r c = d.toMat.f r c := by
+  refine ⟨_, _, rfl, rfl, rfl, rfl, ?_⟩
+  simp only [SM.redPol, Diag.toMat]
+  have hnp' : (npol = 3 && false && (none : Option Nat) == some 0) = false := by simp
+  simp only [hnp', Bool.false_eq_true, if_false]
+  by_cases hrc : r = c
+  · subst hrc; simp
+  · have : ¬ (r % npol = c % npol ∧ r / npol = c / npol) := by
+      rintro ⟨h1, h2⟩
+      exact hrc (by rw [← Nat.div_add_mod r npol, ← Nat.div_add_mod c npol, h1, h2])
+    simp [this, hrc]
+
+/-! ### binary operations on `smrt_matrix` commute with `to_dense` -/
+
+/-- `(a - b).to_dense() = a.to_dense() - b.to_dense()` and the same for `+`, for diagonal4 operands
+    (entry-wise; the dense layout has the diagonal value where both polarisations and both directions agree) -/
+theorem sub_add_toDense_diag4 (npol n : Nat) (v w : Nat → Nat → R) :
+    ((SM.diag4 npol n v).sub (SM.diag4 npol n w) >>= SM.toDense)
+        = .ok (.dense4 npol n n (fun p q i j => if p = q ∧ i = j then v p i - w p i else 0)) ∧
+    ((SM.diag4 npol n v).add (SM.diag4 npol n w) >>= SM.toDense)
+        = .ok (.dense4 npol n n (fun p q i j => if p = q ∧ i = j then w p i + v p i else 0)) ∧
+    ∀ p q i j : Nat,
+      (if p = q ∧ i = j then v p i - w p i else 0)
+        = (if p = q ∧ i = j then v p i else 0) - (if p = q ∧ i = j then w p i else (0 : R)) ∧
+      (if p = q ∧ i = j then w p i + v p i else 0)
+        = (if p = q ∧ i = j then v p i else 0) + (if p = q ∧ i = j then w p i else (0 : R)) := by
+  refine ⟨?_, ?_, ?_⟩
+  · simp [SM.sub, SM.zipWith, SM.toDense, bind, Except.bind]
+  · simp [SM.add, SM.zipWith, SM.toDense, bind, Except.bind]
+  · intro p q i j; constructor <;> split <;> simp [add_comm]
+
+/-- a diagonal and a dense container combine as their dense forms (the case numpy used to broadcast by position) -/
+theorem sub_mixed_dense (npol n : Nat) (v : Nat → Nat → R) (w : Nat → Nat → Nat → Nat → R) :
+    (SM.diag4 npol n v).sub (SM.dense4 npol n n w)
+      = .ok (.dense4 npol n n (fun p q i j => (if p = q ∧ i = j then v p i else 0) - w p q i j)) := by
+  simp [SM.sub, SM.zipWith]
+
+/-! ### `todiag`: blocks written into LAPACK banded storage -/
+
+/-- **todiag_spec (writes)**: after `todiag(bmat, oi, oj, dmat)` entry `(i, j)` of the `n × m` block sits at
+    `ab[u + (oi+i) − (oj+j), oj+j]`, for every block shape, offset and band width. -/
+theorem todiag_writes {α : Type} (u oi oj n m : Nat) (d : Nat → Nat → α) (b : Banded α) (i j : Nat) (hi : i < n) (hj : j < m) :
+    todiag u oi oj n m d b ((u : Int) + (oi : Int) + (i : Int) - (oj : Int) - (j : Int)) (oj + j) = d i j := by
+  unfold todiag todiagLower todiagUpper
+  rw [upper_loop u oi oj n m d b m (le_refl m), lower_loop u oi oj n m d _ (n - 1) (le_refl _)]
+  simp only [lowerSpec, upperSpec]
+  by_cases hij : i ≤ j
+  · rw [if_neg (by omega), if_pos (by omega)]
+    congr 1 <;> omega
+  · rw [if_pos (by omega)]
+    congr 1 <;> omega
+
+/-- **todiag_spec (frame)**: every other entry of the banded array is left unchanged. -/
+theorem todiag_frame {α : Type} (u oi oj n m : Nat) (d : Nat → Nat → α) (b : Banded α) (r : Int) (c : Nat)
+    (h : ∀ i j : Nat, i < n → j < m → ¬ (r = (u : Int) + (oi : Int) + (i : Int) - (oj : Int) - (j : Int) ∧ c = oj + j)) :
+    todiag u oi oj n m d b r c = b r c := by
+  unfold todiag todiagLower todiagUpper
+  rw [upper_loop u oi oj n m d b m (le_refl m), lower_loop u oi oj n m d _ (n - 1) (le_refl _)]
+  simp only [lowerSpec, upperSpec]
+  rw [if_neg, if_neg]
+  · intro hc
+    exact h (r - ((u : Int) + (oi : Int)) + (c : Int)).toNat (c - oj) (by omega) (by omega) (by omega)
+  · intro hc
+    exact h (r - ((u : Int) + (oi : Int)) + (c : Int)).toNat (c - oj) (by omega) (by omega) (by omega)
+
+/-- **banded = dense**: in scipy's convention `ab[u + r − c, c] = A[r, c]`, the matrix that `solve_banded` solves
+    has the block at rows `oi…`, columns `oj…`, provided the block lies inside the band. -/
+theorem todiag_dense {α : Type} [OfNat α 0] (u oi oj n m : Nat) (d : Nat → Nat → α) (b : Banded α) (i j : Nat)
+    (hi : i < n) (hj : j < m)
+    (hband : ((oi + i : Nat) : Int) - ((oj + j : Nat) : Int) ≤ u ∧ ((oj + j : Nat) : Int) - ((oi + i : Nat) : Int) ≤ u) :
+    (todiag u oi oj n m d b).toDense u (oi + i) (oj + j) = d i j := by
+  unfold Banded.toDense
+  rw [if_pos hband]
+  have := todiag_writes u oi oj n m d b i j hi hj
+  have e : (u : Int) + ((oi + i : Nat) : Int) - ((oj + j : Nat) : Int) = (u : Int) + (oi : Int) + (i : Int) - (oj : Int) - (j : Int) := by
+    push_cast; ring
+  rw [e]; exact this
+
+/-- the block is inside the band exactly when `blockInBand` says so (the guard the driver uses) -/
+theorem blockInBand_iff (u oi oj n m : Nat) (hn : 0 < n) (hm : 0 < m) :
+    blockInBand u oi oj n m = true ↔
+      ∀ i j : Nat, i < n → j < m →
+        (0 : Int) ≤ (u : Int) + (oi : Int) + (i : Int) - (oj : Int) - (j : Int) ∧
+        (u : Int) + (oi : Int) + (i : Int) - (oj : Int) - (j : Int) ≤ 2 * (u : Int) := by
+  unfold blockInBand
+  have hn' : (n == 0) = false := by simp; omega
+  have hm' : (m == 0) = false := by simp; omega
+  simp only [hn', hm', Bool.false_or, Bool.and_eq_true, decide_eq_true_eq]
+  constructor
+  · rintro ⟨h1, h2⟩ i j hi hj; omega
+  · intro h
+    have a := h 0 (m - 1) hn (by omega)
+    have b := h (n - 1) 0 (by omega) hm
+    constructor <;> omega
+
+/-! ### the band width DORT allocates is sufficient for every block it writes -/
+
+/-- offsets of consecutive layers tile the rows and columns of the boundary system -/
+theorem offsets_tile (npol : Nat) (ns : List Nat) (l : Nat) (hl : l < ns.length) :
+    ilBottom npol ns l = ilTop npol ns l + ns[l] * npol ∧
+    ilTop npol ns (l + 1) = ilBottom npol ns l + ns[l] * npol ∧
+    jl npol ns (l + 1) = jl npol ns l + 2 * (ns[l] * npol) ∧
+    jl npol ns l = ilTop npol ns l := by
+  have hA : streamsAbove ns (l + 1) = streamsAbove ns l + ns[l] := by
+    unfold streamsAbove
+    rw [List.take_succ_eq_append_getElem hl, List.foldl_append]; simp
+  refine ⟨?_, ?_, ?_, rfl⟩
+  · simp [ilBottom, List.getD_eq_getElem?_getD, hl]
+  · simp only [ilBottom, ilTop, hA, List.getD_eq_getElem?_getD, List.getElem?_eq_getElem hl, Option.getD_some]; ring
+  · simp only [jl, hA]; ring
+
+/-- the band half-width covers every pair of adjacent layers -/
+theorem pair_le_nbandAux (ns : List Nat) (l : Nat) (hl : l + 1 < ns.length) :
+    2 * ns[l + 1] + ns[l] ≤ nbandAux ns ∧ ns[l + 1] + 2 * ns[l] ≤ nbandAux ns := by
+  induction ns generalizing l with
+  | nil => simp at hl
+  | cons a t ih =>
+    cases t with
+    | nil => simp at hl
+    | cons b rest =>
+      cases l with
+      | zero => simp only [nbandAux, List.getElem_cons_zero, List.getElem_cons_succ]; omega
+      | succ l =>
+        have := ih l (by simpa using hl)
+        simp only [nbandAux, List.getElem_cons_succ] at this ⊢
+        omega
+
+/-- **nband_sufficient**: with `u = nband`, every block `dort_modem_banded` writes lies inside the band
+    (`0 ≤ u + row − col ≤ 2u` for all its entries), for every vector of stream counts — whatever the pattern of
+    total reflection — and any number of rows `k` kept by the `ns_common` truncation. -/
+theorem nband_sufficient (npol : Nat) (ns : List Nat) (l : Nat) (hl : l < ns.length) (hnp : 0 < npol) (hpos : 0 < ns[l]) :
+    (let (oi, oj, n, m) := blockTop npol ns l; blockInBand (nband npol ns) oi oj n m = true) ∧
+    (let (oi, oj, n, m) := blockBottom npol ns l; blockInBand (nband npol ns) oi oj n m = true) ∧
+    (∀ k, l + 1 < ns.length → k ≤ ns.getD (l + 1) 0 * npol →
+      (let (oi, oj, n, m) := blockDown npol ns l k; blockInBand (nband npol ns) oi oj n m = true)) ∧
+    (∀ k, l + 1 < ns.length → k ≤ ns[l] * npol →
+      (let (oi, oj, n, m) := blockUp npol ns l k; blockInBand (nband npol ns) oi oj n m = true)) := by
+  have hget : ns.getD l 0 = ns[l] := by simp [List.getD_eq_getElem?_getD, hl]
+  have hT := offsets_tile npol ns l hl
+  obtain ⟨hb, ht1, hj1, hjt⟩ := hT
+  -- lower bound on the band width in terms of this layer and (if any) its lower neighbour
+  have hself : 2 * (ns[l] * npol) ≤ nband npol ns + 0 ∧
+      (∀ h : l + 1 < ns.length, (2 * ns[l + 1] + ns[l]) * npol ≤ nband npol ns ∧ (ns[l + 1] + 2 * ns[l]) * npol ≤ nband npol ns) := by
+    match ns, hl with
+    | [n], hl =>
+      have : l = 0 := by simpa using hl
+      subst this
+      refine ⟨?_, fun h => by simp at h⟩
+      simp only [nband, List.getElem_cons_zero]; nlinarith
+    | a :: b :: rest, hl =>
+      have key : ∀ h : l + 1 < (a :: b :: rest).length,
+          (2 * (a :: b :: rest)[l + 1] + (a :: b :: rest)[l]) * npol ≤ nband npol (a :: b :: rest) ∧
+          ((a :: b :: rest)[l + 1] + 2 * (a :: b :: rest)[l]) * npol ≤ nband npol (a :: b :: rest) := by
+        intro h
+        have := pair_le_nbandAux (a :: b :: rest) l h
+        simp only [nband]
+        constructor <;> nlinarith [this.1, this.2]
+      refine ⟨?_, key⟩
+      by_cases h : l + 1 < (a :: b :: rest).length
+      · have := (key h).2; nlinarith
+      · -- last layer: use the pair (l-1, l)
+        have hl0 : 0 < l := by simp at h hl; omega
+        obtain ⟨l', rfl⟩ : ∃ l', l = l' + 1 := ⟨l - 1, by omega⟩
+        have := pair_le_nbandAux (a :: b :: rest) l' hl
+        simp only [nband]; nlinarith [this.1]
+  obtain ⟨hs, hpair⟩ := hself
+  have hpos' : 0 < ns[l] * npol := Nat.mul_pos hpos hnp
+  refine ⟨?_, ?_, ?_, ?_⟩
+  · simp only [blockTop, blockInBand, hget, jl, ilTop]
+    simp only [Bool.or_eq_true, Bool.and_eq_true, decide_eq_true_eq, beq_iff_eq]
+    right; push_cast; constructor <;> omega
+  · simp only [blockBottom, blockInBand, hget, hb, ← hjt]
+    simp only [Bool.or_eq_true, Bool.and_eq_true, decide_eq_true_eq, beq_iff_eq]
+    right; push_cast; constructor <;> omega
+  · intro k h1 hk
+    have hget1 : ns.getD (l + 1) 0 = ns[l + 1] := by simp [List.getD_eq_getElem?_getD, h1]
+    have := hpair h1
+    simp only [blockDown, blockInBand, hget, ht1, hb, ← hjt]
+    simp only [Bool.or_eq_true, Bool.and_eq_true, decide_eq_true_eq, beq_iff_eq]
+    rw [hget1] at hk
+    right; push_cast; constructor
+    · omega
+    · nlinarith [this.1, this.2]
+  · intro k h1 hk
+    have hget1 : ns.getD (l + 1) 0 = ns[l + 1] := by simp [List.getD_eq_getElem?_getD, h1]
+    have := hpair h1
+    simp only [blockUp, blockInBand, hget1, hb, hj1, ← hjt]
+    simp only [Bool.or_eq_true, Bool.and_eq_true, decide_eq_true_eq, beq_iff_eq]
+    right; push_cast; constructor
+    · nlinarith [this.1, this.2]
+    · omega
+
+/-! ### non-vacuity: concrete instances of the hypotheses -/
+
+/-- a 2×3 block at offset (4, 3) of a band with `u = 5` satisfies the hypotheses of `todiag_dense` -/
+example : ((4 + 1 : Nat) : Int) - ((3 + 2 : Nat) : Int) ≤ (5 : Nat) ∧ ((3 + 2 : Nat) : Int) - ((4 + 1 : Nat) : Int) ≤ (5 : Nat) := by
+  decide
+/-- stream counts (3, 5, 4) with 2 polarisations: all layers satisfy the hypotheses of `nband_sufficient`, `nband = 28` -/
+example : nband 2 [3, 5, 4] = 28 ∧ (0 < [3, 5, 4][1]) ∧ blockInBand 28 (ilTop 2 [3, 5, 4] 2) (jl 2 [3, 5, 4] 1) 8 20 = true := by
+  decide
+/-- and the band is tight up to one diagonal: with 26 the coupling block of layers (1, 2) loses an entry -/
+example : blockInBand 26 (ilTop 2 [3, 5, 4] 2) (jl 2 [3, 5, 4] 1) 8 20 = false := by decide
 
 end Smrt.Props.C20
